@@ -52,6 +52,7 @@ for n in valid wrongname expired unknownissuer selfsigned; do
   cp work/$n.pem $n.cert.pem
   openssl pkcs8 -topk8 -nocrypt -in work/$n.key -out $n.key.pem
 done
+cp work/ca.key ca.key.pem   # test CA key: mint.sh issues a certificate that expired a moment ago at every run
 cp work/ca.pem ca.pem; cp work/ca.der ca.der; cp work/otherca.pem otherca.pem; cp work/otherca.der otherca.der
 rm -rf work
 ls -la
